@@ -272,6 +272,25 @@ func corpus(c *ev.Ctx) []item {
 	for _, s := range []string{"/a/", "/a\\/b/", "/[a-z]+/", "/^a$/", "/ /", "/\\//"} {
 		add(item{"regex", s, false, false})
 	}
+	// texts with multi-byte characters (lengths are byte lengths): one character per UTF-8 length and
+	// continuation-byte class, in every role and in every place a role admits text
+	for _, ch := range []string{"é", "À", "ю", "€", "日", "\U0001f3c6", "\u0080", "яё"} {
+		add(item{"schema", `"` + ch + `"`, false, false})
+		add(item{"schema", "{\n  \"" + ch + "\": \"x" + ch + "\"\n}", false, false})
+		add(item{"schema", "1 // {min: 0} - " + ch, true, false})
+		add(item{"schema", "\"" + ch + "\" // " + ch + " " + ch, true, false})
+		add(item{"schema", "[\n  1 /* " + ch + " */\n]", false, false})
+		add(item{"json", `"` + ch + `"`, false, true})
+		add(item{"json", `{"` + ch + `":["` + ch + ch + `"]}`, false, true})
+		add(item{"enum", `["` + ch + `"]`, false, false})
+		add(item{"enum", `["a", "` + ch + `", 1]`, false, false})
+		add(item{"enum", "[\n  \"" + ch + "\" // " + ch + "\n]", false, false})
+		add(item{"regex", "/" + ch + "/", false, false})
+		add(item{"regex", "/^[" + ch + "a]+" + ch + "$/", false, false})
+		add(item{"regex", "/a\\/" + ch + "/", false, false})
+	}
+	add(item{"regex", "/^[а-яё]+$/", false, false})
+	add(item{"regex", "/^\\p{Han}{1,3}日本$/", false, false})
 	// every body of <= 4 symbols over {a, \, /, .} that forms ONE /P/ token
 	// (the only unescaped slashes are the delimiters) with a pattern Go accepts
 	var rec func(b string)
